@@ -227,11 +227,6 @@ T = {
         ["C06 database part: an operation on one log changed the rows of another log"],
         "first UNCOVERED (the SQL subset of the table model had only `=`); ordering comparisons, subqueries in any comparison, "
         "[NOT] EXISTS and INSERT .. SELECT were added to mirsym/sqlmodel.py; caught"),
-    "C06-db-idempotent-insert": (
-        "C06", "EventEntity::insert_events inserts only where no row with the same owner and commit exists (INSERT .. SELECT .. WHERE NOT EXISTS)",
-        "byte-identical events within one log",
-        ["C06 database part: tree in memory has more leaves than the table / rows after apply"],
-        "first UNCOVERED (nested statement text inside a WHERE clause); statements can now be rendered to and parsed from text; caught"),
     "C07-db-replace-accepts-contains": (
         "C07", "DatabaseEventLog::replace_all_events verifies with tree.compare and refuses only Unknown",
         "a replace-all of >= 2 records whose checkpoint is the head of a proper prefix of them",
